@@ -21,7 +21,15 @@ import (
 	"github.com/spf13/cobra"
 )
 
-func newReplacer(secrets []string) aho_corasick.Replacer {
+// secretPlaceholder replaces each run of output bytes that belong to occurrences of secrets.
+const secretPlaceholder = "[secret]"
+
+// A replacer replaces every occurrence of a secret in a string with secretPlaceholder.
+type replacer struct {
+	secrets aho_corasick.AhoCorasick
+}
+
+func newReplacer(secrets []string) replacer {
 	// Ignore very short secrets (anything less than 3 characters). Such secrets have low entropy, and redacting them is
 	// unlikely to be useful (in the case of _empty_ secrets, including them is harmful, as it causes the redactor
 	// to insert "[secret]" after every character).
@@ -36,16 +44,51 @@ func newReplacer(secrets []string) aho_corasick.Replacer {
 	builder := aho_corasick.NewAhoCorasickBuilder(aho_corasick.Opts{
 		MatchKind: aho_corasick.StandardMatch,
 	})
-	return aho_corasick.NewReplacer(builder.Build(secrets))
+	return replacer{secrets: builder.Build(secrets)}
+}
+
+// redact replaces the occurrences of secrets in s with secretPlaceholder. Occurrences may overlap or contain one
+// another (e.g. the secret "aaa" occurs twice in "aaaa"), so every occurrence is collected first and each run of bytes
+// that is covered by overlapping occurrences is replaced as a whole: no byte of any occurrence is kept.
+func (r replacer) redact(s string) string {
+	// covered[i] is true if byte i lies inside an occurrence; joined[i] is true if bytes i-1 and i lie inside the
+	// same occurrence.
+	var covered, joined []bool
+	for it := r.secrets.IterOverlapping(s); ; {
+		m := it.Next()
+		if m == nil {
+			break
+		}
+		if covered == nil {
+			covered, joined = make([]bool, len(s)), make([]bool, len(s))
+		}
+		for i := m.Start(); i < m.End(); i++ {
+			covered[i], joined[i] = true, joined[i] || i > m.Start()
+		}
+	}
+	if covered == nil {
+		return s
+	}
+
+	var b strings.Builder
+	for i := 0; i < len(s); i++ {
+		switch {
+		case !covered[i]:
+			b.WriteByte(s[i])
+		case i == 0 || !covered[i-1] || !joined[i]:
+			b.WriteString(secretPlaceholder)
+		}
+	}
+	return b.String()
 }
 
 type redactor struct {
 	w        io.Writer
-	replacer aho_corasick.Replacer
+	replacer replacer
 	line     bytes.Buffer
 }
 
-func newRedactor(w io.Writer, replacer aho_corasick.Replacer) *redactor {
+func newRedactor(w io.Writer, replacer replacer) *redactor {
 	return &redactor{w: w, replacer: replacer}
 }
 
@@ -64,9 +107,7 @@ func (w *redactor) Write(b []byte) (int, error) {
 		_, err := w.line.Write(b[:newline+1])
 		contract.IgnoreError(err)
 
-		redacted := w.replacer.ReplaceAllFunc(w.line.String(), func(m aho_corasick.Match) (string, bool) {
-			return "[secret]", true
-		})
+		redacted := w.replacer.redact(w.line.String())
 
 		if _, err = w.w.Write([]byte(redacted)); err != nil {
 			w.line.Truncate(n)
@@ -83,9 +124,7 @@ func (w *redactor) Close() error {
 		rest := w.line.String()
 		w.line.Reset()
 
-		redacted := w.replacer.ReplaceAllFunc(rest, func(m aho_corasick.Match) (string, bool) {
-			return "[secret]", true
-		})
+		redacted := w.replacer.redact(rest)
 
 		_, err := w.w.Write([]byte(redacted))
 		return err
